@@ -21,7 +21,7 @@ from .corpus import CORPUS
 
 PROP = "C20"
 FEATURE_SETS = ("none", "full")
-GRAMMARS = ["g1", "g2", "p1", "p3", "c1", "c3", "o1", "o2", "o3", "a1", "a3", "k1", "k2", "k4", "v1", "h1", "kc", "hr", "hd", "f3", "f1", "x1", "x2", "x4", "k5", "k6"]
+GRAMMARS = ["g1", "g2", "p1", "p3", "c1", "c3", "o1", "o2", "o3", "a1", "a3", "k1", "k2", "k4", "v1", "h1", "kc", "hr", "hd", "f3", "f1", "x1", "x2", "x4", "k5", "k6", "cr", "c8"]
 
 
 def norm_msg(ex, v):
@@ -143,7 +143,109 @@ def run_prologue_job(job, build):
     return out
 
 
+CONSOLE_ALPHA = [0x60, 0x0A, 0x61, 0x20]
+CONSOLE_PREFIXES = ["", "\n\n```\n", "a\n\n```\n", "\n    ", "a\n\n"]
+
+
+def run_console_job(job, build):
+    """help *text*: Doc::render_console (with the Splitter, which has docgen-only code) executed from both
+    MIR dumps on the same help-item document - a definition list whose body starts with a concrete
+    structural prefix followed by symbolic bytes over {backquote, newline, a, space}; the rendered
+    texts must be equal byte for byte"""
+    from . import C13
+    from mirsym import textmodels as TM
+    progs = {fs: tok.load_program(build, fs) for fs in FEATURE_SETS}
+    ea, eb = C13.text_exec(progs["none"]), C13.text_exec(progs["full"])
+    n, prefix = job["n"], job["prefix"]
+    out = {"stats": None, "cex": [], "inconclusive": [], "samples": [], "nontrivial": 0, "classes": {}, "joint": 0}
+    template = C13.TEMPLATES["deflist"]
+
+    def harness(ex):
+        ex.fresh_n = 0
+        L = ex.prog.layout
+        bs = [ex.fresh("t", 8) for _ in range(n)]
+        for b in bs:
+            ex.assume(z3.Or(*[b == a for a in CONSOLE_ALPHA]))
+        body = list(prefix.encode()) + bs
+        tokens, payload = [], []
+        texts = {2: list(b"-a"), 5: body}
+        for i, (kind, arg) in enumerate(template):
+            if kind == "T":
+                t = texts[i]
+                payload.extend(t)
+                vi = L.variant_index("Token", "Text")
+                fl = L.adts["Token"]["variants"][vi][1]
+                d = {"bytes": len(t), "style": Adt("Style", L.variant_index("Style", arg), ())}
+                tokens.append(Adt("Token", vi, tuple(d[f] for f in fl)))
+            else:
+                vn = "BlockStart" if kind == "S" else "BlockEnd"
+                tokens.append(Adt("Token", L.variant_index("Token", vn), (Adt("Block", L.variant_index("Block", arg), ()),)))
+        dd = {"payload": BStr(tuple(payload)), "tokens": Seq(tuple(tokens))}
+        doc = Adt("Doc", 0, tuple(dd[f] for f in L.adts["Doc"]["fields"]))
+        mono = Adt("Color", L.variant_index("Color", "Monochrome"), ())
+        res = ex.call(parse_callee("Doc::render_console"), [Ref(Cell(doc, "doc"), ()), True, mono, 100])
+        return (bs, res)
+
+    def on_a(ex, ra):
+        if ra.kind != "ok":
+            out["inconclusive"].append("panic on a `{}` path: %r" % (ra.info,))
+            return
+        bsa, resa = ra.value
+        if ea.pc:
+            out["nontrivial"] += 1
+        eb.path_axioms = list(ea.pc)
+
+        def on_b(exb, rb):
+            out["joint"] += 1
+            bad = None
+            if rb.kind != "ok":
+                bad = "full-feature build panics: %r" % (rb.info,)
+            else:
+                bsb, resb = rb.value
+                xa, xb = TM.to_bstr(resa).b, TM.to_bstr(resb).b
+                if len(xa) != len(xb):
+                    bad = "rendered help text has %d bytes in the `{}` build and %d in the full-feature build" % (len(xa), len(xb))
+                else:
+                    eq = val_eq(eb, Seq(tuple(xa)), Seq(tuple(xb)))
+                    if eq is not True:
+                        m = eb.prove(eq) if eq is not False else eb.model()
+                        if m is not None:
+                            if eq is not False:
+                                eb.solver.add(z3.Not(eq))
+                            bad = "rendered help text differs between the builds"
+            m = eb.model()
+            text = prefix + "".join(chr(m.eval(b, model_completion=True).as_long()) for b in bsa)
+            if bad:
+                out["cex"].append({"kind": "help-text-feature-dependent", "grammar": "probe:help:" + text.encode().hex(), "shape": ["console", prefix, n], "argv": [], "env": {},
+                                   "help_text": text, "predicted": [["stdout", None], ["stdout", None]], "expected": "equal", "why": bad})
+            elif len(out["samples"]) < 1:
+                out["samples"].append({"help_text": text, "class": "console rendering", "both_builds_agree": True})
+        eb.explore(harness, on_b, max_paths=5000)
+
+    try:
+        ea.explore(harness, on_a, max_paths=100000)
+    except (Unmodelled, BoundExceeded, ExecError) as e:
+        out["inconclusive"].append("%s %s [%s]" % (type(e).__name__, e, "/".join(getattr(e, "stack", None) or (eb.callstack or ea.callstack)[-3:])))
+    st = dict(ea.stats)
+    for k, v in eb.stats.items():
+        st[k] = st.get(k, 0) + v
+    out["stats"] = st
+    out["models_used"] = {k: ea.model_hits.get(k, 0) + eb.model_hits.get(k, 0) for k in set(ea.model_hits) | set(eb.model_hits)}
+    out["fn_hits"] = {k: ea.fn_hits.get(k, 0) + eb.fn_hits.get(k, 0) for k in set(ea.fn_hits) | set(eb.fn_hits)}
+    if out["cex"]:
+        ra_ = Replayer(build["sets"]["none"]["replay"]).run([(c["grammar"], [], {}) for c in out["cex"]])
+        rb_ = Replayer(build["sets"]["full"]["replay"]).run([(c["grammar"], [], {}) for c in out["cex"]])
+        for c, x, y in zip(out["cex"], ra_, rb_):
+            c["native"] = [list(x), list(y)]
+            c["reproduced"] = tuple(x) != tuple(y)
+            if "```" in c["help_text"]:
+                c["finding_key"] = "fenced-code-block-in-help-text-only-recognised-with-docgen"
+    return out
+
+
 def run_job(job, build):
+    if job.get("kind") == "console":
+        return run_console_job(job, build)
     if job.get("kind") == "prologue":
         return run_prologue_job(job, build)
     pa = tok.load_program(build, "none")
@@ -286,6 +388,9 @@ def make_jobs(tier, seed, build):
                 if sum(lens) > (6 if tier == "quick" else 8):
                     continue
                 jobs.append({"id": "prologue:%s:%s" % (gname, ",".join(map(str, lens))), "kind": "prologue", "grammar": gname, "lens": list(lens), "shape": ()})
+    for pi, prefix in enumerate(CONSOLE_PREFIXES):
+        for n in range(0, (3 if tier == "quick" else 4) + 1):
+            jobs.append({"id": "console:%d:%d" % (pi, n), "kind": "console", "prefix": prefix, "n": n, "shape": ()})
     return jobs
 
 
@@ -326,8 +431,10 @@ def finish(results, jobs, build, out, tier, seed, wall):
             if len(samples) < 10:
                 samples.append(s)
         for c in r.get("cex", []):
-            key = "%s:%s" % (c["grammar"], " ".join(c["argv"]))
+            key = c.get("finding_key") or "%s:%s" % (c["grammar"], " ".join(c["argv"]))
             what = "features change the outcome on grammar %s argv=%r: {}: %s, full: %s (%s)" % (c["grammar"], c["argv"], c["native"][0], c["native"][1], c["why"])
+            if c.get("help_text") is not None:
+                what = "features change the help text: help %r renders as {}: %s, full: %s (%s)" % (c["help_text"], c["native"][0], c["native"][1], c["why"])
             if c.get("reproduced"):
                 out.violation(key, what, c)
             else:
